@@ -21,10 +21,11 @@ class Ctx:
         self.run.analysed.update(self.repo.stats())
         self.run.analysed['repo_root'] = self.repo.root
 
-    def N(self, fi, depth=2):
-        """Normalised view of a function: module-local helpers inlined (see sa/normalize.py)."""
+    def N(self, fi, depth=2, keep=()):
+        """Normalised view of a function: module-local helpers inlined (see sa/normalize.py); `keep` = qualified names of
+        helpers that are analysed in their own right and must stay calls."""
         from .normalize import normalized
-        return normalized(self, fi, depth)
+        return normalized(self, fi, depth, True, tuple(keep))
 
 
 def run_check(prop, tier, seed, audit=True):
